@@ -638,6 +638,7 @@ class MifareUltralightEV1(NTAG21x):
 class MF0UL11(MifareUltralightEV1):
     def __init__(self, clf, target):
         super(MF0UL11, self).__init__(clf, target, "MF0UL11")
+        self._cfgpage = 16
 
     def dump(self):
         return self._dump_ul11()
@@ -646,6 +647,7 @@ class MF0UL11(MifareUltralightEV1):
 class MF0ULH11(MifareUltralightEV1):
     def __init__(self, clf, target):
         super(MF0ULH11, self).__init__(clf, target, "MF0ULH11")
+        self._cfgpage = 16
 
     def dump(self):
         return self._dump_ul11()
@@ -654,6 +656,7 @@ class MF0ULH11(MifareUltralightEV1):
 class MF0UL21(MifareUltralightEV1):
     def __init__(self, clf, target):
         super(MF0UL21, self).__init__(clf, target, "MF0UL21")
+        self._cfgpage = 37
 
     def dump(self):
         return self._dump_ul21()
@@ -662,6 +665,7 @@ class MF0UL21(MifareUltralightEV1):
 class MF0ULH21(MifareUltralightEV1):
     def __init__(self, clf, target):
         super(MF0ULH21, self).__init__(clf, target, "MF0ULH21")
+        self._cfgpage = 37
 
     def dump(self):
         return self._dump_ul21()
